@@ -32,6 +32,7 @@ type c02Model struct {
 	nextID       int
 	log          []string
 	copyMode     bool
+	donor        *tabular.ATable
 	copies       int
 	looks        int
 }
@@ -156,6 +157,15 @@ func (m *c02Model) apply(o c02Op) {
 		var h *tabular.Row
 		if o.kind == c02NewSizedHold {
 			h = t.NewRowSizedFor()
+			if m.copyMode && o.k%2 == 1 {
+				// a row cut to size for ANOTHER, wider table and then used here: NewRowSizedFor only pre-sizes a row
+				if m.donor == nil {
+					m.donor = tabular.New()
+					m.donor.AddHeaders("d1", "d2", "d3", "d4", "d5", "d6", "d7")
+				}
+				h = m.donor.NewRowSizedFor()
+				m.log = append(m.log, "  (the row held next was made by NewRowSizedFor of another table, 7 columns wide)")
+			}
 		} else if o.k%2 == 0 {
 			h = tabular.NewRow()
 		} else {
